@@ -109,3 +109,19 @@ package configs
 //@   loop 5: each !(group in parentGroupLimits) && group != "*" && ("*" in parentGroupLimits) && parentGroupLimits["*"] != 0 ==> limitMaxApplications != 0 && limitMaxApplications <= parentGroupLimits["*"]
 //@   loop 6: each ncalls(configs.checkLimitMaxApplications) == iter(ncalls(configs.checkLimitMaxApplications)) + 1
 //@   at[down] call configs.checkLimitMaxApplications#1: assert arg1 == curUserLimits && arg2 == curGroupLimits
+
+// one limit entry of one queue: an accepted entry stays within the queue's max-applications, and - for every queue
+// whose name is not exactly the root's - its resource limit was compared against the queue's own configured maximum
+// (the parsed queue.Resources.Max against the parsed limit.MaxResources) and fitted. limfits names that answer.
+//@ spec abstract limfits(q *QueueConfig) bool
+//@ func checkLimit(limit Limit, existingUserName map[string]bool, existingGroupName map[string]bool, queue *QueueConfig) (err error)
+//@   props C15
+//@   sweep
+//@   mode nopanic=off
+//@   at[limitparsed] call resources.NewResourceFromConf#1: assert arg0 == limit.MaxResources
+//@   at[queuemaxparsed] call resources.NewResourceFromConf#2: assert arg0 == queue.Resources.Max
+//@   at[compared] call resources.Resource.FitInMaxUndef#1: assert arg0 == queueMaxResource && arg1 == limitResource
+//@   at[comparedanswer] call resources.Resource.FitInMaxUndef#1 after: assume ret == limfits(queue)
+//@   ensures[withinqueuemax] err == nil && queue.Name != "root" ==> ncalls(resources.Resource.FitInMaxUndef) == 1 && limfits(queue)
+//@   ensures[withinqueueapps] err == nil && queue.MaxApplications != 0 ==> limit.MaxApplications <= queue.MaxApplications
+//@   ensures[notempty] err == nil ==> limit.MaxApplications != 0 || len(limit.MaxResources) != 0
